@@ -1,1 +1,4 @@
+pub mod plan;
+pub mod rec;
 pub mod seams;
+pub mod sim;
